@@ -810,6 +810,7 @@ Property make() {
   p.rule = "plan = 2-4 walkers x shared ABF on 1-2 variables (grids covering part or all of the sampled range) x sharedFreq 2-7 x whole-job stop/resume at "
            "0-2 steps (on and off the share schedule) x a seeded schedule that interleaves the walkers at every step boundary, message and file call; "
            "non-trivial = at least one share happened; distinct = hash of (template, number of walkers, resumes, schedule prefix)";
+  p.rule += " Later additions: 16% of the plans are multiple-walker OPES (kernel list = all walkers' deposits, each once, in replica order); a quarter of the metadynamics jobs start with a stale registry record; gaps are tagged by whether the reader holds the peer's current state.";
   p.assumptions = {"MPI-like transport: reliable, ordered; no loss/duplication is injected (Colvars has no retry logic and no deployment sees that)",
                    "per-walker samples do not depend on the applied ABF force (system force = total force - ABF force), so a solo run of the same trajectory is the reference",
                    "the whole job stops and restarts together"};
